@@ -3,7 +3,7 @@ import itertools, random
 from common import *
 
 KEYS = ["a", "b"]
-ELEMS = ["x", "y", "", "x\r\n\x00\xff", "12"]
+ELEMS = ["x", "y", "", "x\r\n\x00\xff", "12", "%d"]
 IDX = ["-5", "-4", "-3", "-2", "-1", "0", "1", "2", "3", "4", "5", "-0", "+1"]
 BADINT = ["zz", "", "1.5", " 1", "9223372036854775808", "1_0"]
 SIDES = ["LEFT", "RIGHT", "left", "Right"]
